@@ -31,9 +31,9 @@ PROPS = {
         "level_note": "Trusted: the hand-written validation model mirrors batch.go/file.go (call sequence facts + oracle); direction needed is implementation-accepts => model-accepts, searched by the oracle's independent recomputation on the real code.",
     },
     "C05": {
-        "streams": [("create", 4000, 60000)],
-        "level_text": "Proof (batch level): for the model of Batch.build/upsertOffsets - the removal loop exactly as written, parameterised by the slice expression extracted from the source - the control equals the values recomputed from the entries, an Offset makes debits equal credits through at most one OFFSET entry per direction, and any number of further builds changes nothing (entries, trace and addenda sequence numbers, control). The historical Entries[i+i:] loop is shown to panic / hang on the model. File.Create and SEC wrappers: oracle only.",
-        "level_note": "Trusted: Lean kernel; the create correspondence stream ties the model to the real (*Batch).build through the verif hook (entries, traces, addenda sequences, control compared after 1-3 builds, with and without offsets); gofacts index-site census gives the slice expression.",
+        "streams": [("create", 4000, 60000), ("filecreate", 3000, 40000)],
+        "level_text": "Proof (batch level): for the model of Batch.build/upsertOffsets - the removal loop exactly as written, parameterised by the slice expression extracted from the source - the control equals the values recomputed from the entries, an Offset makes debits equal credits through at most one OFFSET entry per direction, and any number of further builds changes nothing (entries, trace and addenda sequence numbers, control). The historical Entries[i+i:] loop is shown to panic / hang on the model. File level: on the model of File.Create's numbering loop (standard then IAT batches, one running counter) and file control, the created file passes File.ValidateWith whenever its header and batches validate and the numbering it leaves is ascending - which it always is for batches numbered <= 1 -, the file control equals the figures recomputed from the batch controls for every input, and Create again changes nothing. createFileADV and the SEC-specific Create wrappers: oracle only.",
+        "level_note": "Trusted: Lean kernel; the create correspondence stream ties the model to the real (*Batch).build through the verif hook (entries, traces, addenda sequences, control compared after 1-3 builds, with and without offsets); gofacts index-site census gives the slice expression; the filecreate stream runs the real File.Create on files whose batch numbers and control figures were set to arbitrary values (standard, IAT, mixed) and compares numbers and the six file-control figures with the model.",
     },
     "C20": {
         "streams": [("mask", 12000, 120000)],
@@ -64,8 +64,8 @@ PROPS = {
     },
     "C09": {
         "streams": [("merge", 2000, 30000)],
-        "level_text": "Proof: loop invariant of convertToFiles relating the running line counter to the real size of the file being assembled gives: every written file has at most MaxLines records unless it holds a single entry, for every state and every MaxLines (0 or >= 2); accumulated batches stay strictly sorted by trace with unique traces; outputs are consecutive runs of those. Validity of outputs = C05 on each batch; dollar limit and one-file-per-route when unlimited: oracle (limits swept at size-1/size/size+1 and every boundary).",
-        "level_note": "Trusted: as C08 (same model, same merge correspondence stream). Dollar bound not yet proved (same invariant shape).",
+        "level_text": "Proof: loop invariant of convertToFiles relating the running line counter to the real size of the file being assembled gives: every written file has at most MaxLines records unless it holds a single entry, for every state and every MaxLines (0 or >= 2); accumulated batches stay strictly sorted by trace with unique traces; outputs are consecutive runs of those. The same loop with its exact dollar counter: the amounts of every written file sum to at most MaxDollarAmount (when positive) unless it holds a single entry. When a route's accumulated batches fit under both limits (lines as the code counts them) and no amount is negative, at most one file is written for the route; two accumulated batches with equal headers exist only because of trace collisions (every entry of the later one has a trace the earlier one already holds). Validity of outputs = C05 on each batch, checked on the real outputs by the oracle (limits swept at size-1/size/size+1 and every boundary).",
+        "level_note": "Trusted: as C08 (same model, same merge correspondence stream).",
     },
     "C10": {
         "race": True,
